@@ -108,6 +108,12 @@ pub fn run_extra(kind: &str, l: &[Sx]) -> String {
         "serscript" => serscript_case(l),
         "respell" => respell_case(l),
         "rtext" => rtext_case(l),
+        "poscoh" => crate::oracles::poscoh(l),
+        "mathref" => crate::oracles::mathref(l),
+        "daterange" => crate::oracles::daterange(l),
+        "todrange" => crate::oracles::todrange(l),
+        "ord3" => crate::oracles::ord3(l),
+        "sortlaws" => crate::oracles::sortlaws(l),
         "stext" => stext_case(l),
         "lay" => lay_case(l),
         "uniclass" => uniclass(atom(&l[2]).parse().unwrap(), atom(&l[3]).parse().unwrap()),
